@@ -87,12 +87,41 @@ func (d *dagStoreImpl) UpdateSpec(name string, spec []byte) error {
 	if !exists(loc) {
 		return fmt.Errorf("%w: %s", errDOGFileNotExist, loc)
 	}
-	err = os.WriteFile(loc, spec, defaultPerm)
+	err = writeFileAtomic(loc, spec, defaultPerm)
 	if err != nil {
 		return err
 	}
 	d.metaCache.Invalidate(loc)
 	return nil
+}
+
+// writeFileAtomic replaces the file with the given content in one step: the
+// content is written to a temporary file in the same directory which is then
+// renamed over the target, so that the target always holds either the complete
+// old or the complete new content, also when the process dies half-way.
+func writeFileAtomic(loc string, data []byte, perm os.FileMode) error {
+	tmp, err := os.CreateTemp(filepath.Dir(loc), filepath.Base(loc)+".tmp*")
+	if err != nil {
+		return err
+	}
+	tmpName := tmp.Name()
+	_, err = tmp.Write(data)
+	if err == nil {
+		err = tmp.Chmod(perm)
+	}
+	if err == nil {
+		err = tmp.Sync()
+	}
+	if closeErr := tmp.Close(); err == nil {
+		err = closeErr
+	}
+	if err == nil {
+		err = os.Rename(tmpName, loc)
+	}
+	if err != nil {
+		_ = os.Remove(tmpName)
+	}
+	return err
 }
 
 var errDAGFileAlreadyExists = errors.New("the DAG file already exists")
